@@ -12,4 +12,4 @@ Extraction "model.ml" ModInt.binop_apply ModInt.unop_apply ModInt.cmp_apply ModI
   Expr.get_r Expr.get_w Expr.get_expr_ids Expr.match_expr Expr.key_expr Expr.key_cmp
   Simp.simp Simp.simp1
   EvalAbs.eval_expr EvalAbs.eval_instr EvalAbs.simpF EvalAbs.pool_set
-  X86Dis.dis X86Tables.x86_tables.
+  X86Dis.dis X86Dis.flow_flags X86Dis.getnextflow X86Dis.getdstflow X86Tables.x86_tables.
